@@ -139,6 +139,7 @@ type Result struct {
 	Nondet     string // non-empty: replay diverged (engine error)
 	Defaults   []string
 	Wire       []string // wire tap rendering, set by scenarios (replay files)
+	Counters   map[string]int64
 }
 
 // Exec is the state of the current execution.
@@ -914,6 +915,30 @@ func Choose(n int) int {
 		e.res.Trace = append(e.res.Trace, fmt.Sprintf("[%d/%d] environment choice", choice, n))
 	}
 	return choice
+}
+
+// Count adds to a named counter of the execution (enumeration sizes).
+func Count(name string, n int64) {
+	if ex == nil {
+		return
+	}
+	if ex.res.Counters == nil {
+		ex.res.Counters = map[string]int64{}
+	}
+	ex.res.Counters[name] += n
+}
+
+// Sleep lets fake time pass for the calling thread (everything else is
+// parked, so the bubble's clock jumps), then waits for timer goroutines.
+func Sleep(d time.Duration) {
+	e := ex
+	if e == nil || e.killing || d <= 0 {
+		return
+	}
+	e.advancing = true
+	time.Sleep(d)
+	synctest.Wait()
+	e.advancing = false
 }
 
 // Obs appends to the execution's observation log.
